@@ -15,8 +15,12 @@ pub trait CssDestination {
         &mut self,
         selectors: CssSelectorSet,
     ) -> Result<RuleDest<'_>>;
-    fn start_atmedia(&mut self, args: MediaArgs) -> AtMediaDest<'_>;
-    fn start_atrule(&mut self, name: String, args: Value) -> AtRuleDest<'_>;
+    fn start_atmedia(&mut self, args: MediaArgs) -> Result<AtMediaDest<'_>>;
+    fn start_atrule(
+        &mut self,
+        name: String,
+        args: Value,
+    ) -> Result<AtRuleDest<'_>>;
     fn start_nsrule(&mut self, name: String) -> Result<NsRuleDest<'_>>;
 
     fn push_import(&mut self, import: Import);
@@ -76,28 +80,32 @@ impl CssDestination for RuleDest<'_> {
     ) -> Result<RuleDest<'_>> {
         Ok(RuleDest::new(self, selectors))
     }
-    fn start_atmedia(&mut self, args: MediaArgs) -> AtMediaDest<'_> {
+    fn start_atmedia(&mut self, args: MediaArgs) -> Result<AtMediaDest<'_>> {
         let selectors = self.rule.selectors.clone();
-        AtMediaDest {
+        Ok(AtMediaDest {
             parent: self,
             args,
             rule: Some(Rule::new(selectors)),
             body: Vec::new(),
-        }
+        })
     }
-    fn start_atrule(&mut self, name: String, args: Value) -> AtRuleDest<'_> {
+    fn start_atrule(
+        &mut self,
+        name: String,
+        args: Value,
+    ) -> Result<AtRuleDest<'_>> {
         let rule = if is_flat_rule(&name) {
             None
         } else {
             Some(Rule::new(self.rule.selectors.clone()))
         };
-        AtRuleDest {
+        Ok(AtRuleDest {
             parent: self,
             name,
             args,
             rule,
             body: Vec::new(),
-        }
+        })
     }
     fn start_nsrule(&mut self, name: String) -> Result<NsRuleDest<'_>> {
         Ok(NsRuleDest { parent: self, name })
@@ -168,11 +176,15 @@ impl CssDestination for AtRootDest<'_> {
     ) -> Result<RuleDest<'_>> {
         Ok(RuleDest::new(self, selectors))
     }
-    fn start_atmedia(&mut self, args: MediaArgs) -> AtMediaDest<'_> {
-        AtMediaDest::new(self, args)
+    fn start_atmedia(&mut self, args: MediaArgs) -> Result<AtMediaDest<'_>> {
+        Ok(AtMediaDest::new(self, args))
     }
-    fn start_atrule(&mut self, name: String, args: Value) -> AtRuleDest<'_> {
-        AtRuleDest::new(self, name, args)
+    fn start_atrule(
+        &mut self,
+        name: String,
+        args: Value,
+    ) -> Result<AtRuleDest<'_>> {
+        Ok(AtRuleDest::new(self, name, args))
     }
     fn start_nsrule(&mut self, _name: String) -> Result<NsRuleDest<'_>> {
         Err(Invalid::GlobalNsProperty)
@@ -213,17 +225,15 @@ impl CssDestination for NsRuleDest<'_> {
     ) -> Result<RuleDest<'_>> {
         Err(Invalid::InNsRule)
     }
-    fn start_atmedia(&mut self, args: MediaArgs) -> AtMediaDest<'_> {
-        AtMediaDest::new(self, args)
+    fn start_atmedia(&mut self, _args: MediaArgs) -> Result<AtMediaDest<'_>> {
+        Err(Invalid::InNsRule)
     }
-    fn start_atrule(&mut self, name: String, args: Value) -> AtRuleDest<'_> {
-        AtRuleDest {
-            parent: self,
-            name,
-            args,
-            rule: None,
-            body: Vec::new(),
-        }
+    fn start_atrule(
+        &mut self,
+        _name: String,
+        _args: Value,
+    ) -> Result<AtRuleDest<'_>> {
+        Err(Invalid::InNsRule)
     }
     fn start_nsrule(&mut self, name: String) -> Result<NsRuleDest<'_>> {
         Ok(NsRuleDest { parent: self, name })
@@ -293,28 +303,32 @@ impl CssDestination for AtRuleDest<'_> {
     ) -> Result<RuleDest<'_>> {
         Ok(RuleDest::new(self, selectors))
     }
-    fn start_atmedia(&mut self, args: MediaArgs) -> AtMediaDest<'_> {
+    fn start_atmedia(&mut self, args: MediaArgs) -> Result<AtMediaDest<'_>> {
         let rule = self.rule.as_ref().map(|r| Rule::new(r.selectors.clone()));
-        AtMediaDest {
+        Ok(AtMediaDest {
             parent: self,
             args,
             rule,
             body: Vec::new(),
-        }
+        })
     }
-    fn start_atrule(&mut self, name: String, args: Value) -> AtRuleDest<'_> {
+    fn start_atrule(
+        &mut self,
+        name: String,
+        args: Value,
+    ) -> Result<AtRuleDest<'_>> {
         let rule = if is_flat_rule(&name) {
             None
         } else {
             self.rule.as_ref().map(|r| Rule::new(r.selectors.clone()))
         };
-        AtRuleDest {
+        Ok(AtRuleDest {
             parent: self,
             name,
             args,
             rule,
             body: Vec::new(),
-        }
+        })
     }
     fn start_nsrule(&mut self, name: String) -> Result<NsRuleDest<'_>> {
         Ok(NsRuleDest { parent: self, name })
@@ -414,28 +428,32 @@ impl CssDestination for AtMediaDest<'_> {
     ) -> Result<RuleDest<'_>> {
         Ok(RuleDest::new(self, selectors))
     }
-    fn start_atmedia(&mut self, args: MediaArgs) -> AtMediaDest<'_> {
+    fn start_atmedia(&mut self, args: MediaArgs) -> Result<AtMediaDest<'_>> {
         let rule = self.rule.as_ref().map(|r| Rule::new(r.selectors.clone()));
-        AtMediaDest {
+        Ok(AtMediaDest {
             parent: self,
             args,
             rule,
             body: Vec::new(),
-        }
+        })
     }
-    fn start_atrule(&mut self, name: String, args: Value) -> AtRuleDest<'_> {
+    fn start_atrule(
+        &mut self,
+        name: String,
+        args: Value,
+    ) -> Result<AtRuleDest<'_>> {
         let rule = if is_flat_rule(&name) {
             None
         } else {
             self.rule.as_ref().map(|r| Rule::new(r.selectors.clone()))
         };
-        AtRuleDest {
+        Ok(AtRuleDest {
             parent: self,
             name,
             args,
             rule,
             body: Vec::new(),
-        }
+        })
     }
     fn start_nsrule(&mut self, name: String) -> Result<NsRuleDest<'_>> {
         Ok(NsRuleDest { parent: self, name })
